@@ -569,6 +569,23 @@ def check_dates():
     return None
 
 
+def check_eml_dates():
+    """.eml: the ISO date denotes the instant of the Date header (mailparser normalises to UTC)."""
+    import datetime as _dt
+    from email.utils import parsedate_to_datetime
+    for d in ["Mon, 01 Jan 2024 10:00:00 +0000", "Mon, 01 Jan 2024 10:00:00 +0530", "Mon, 01 Jan 2024 10:00:00 -0330", "Mon, 01 Jan 2024 10:00:00 -0930",
+              "Sun, 31 Dec 2023 23:59:59 -0230", "Mon, 01 Jan 2024 10:00:00 +1400"]:
+        raw = b"From: a@x.org\nSubject: s\nDate: " + d.encode() + b"\n\nbody\n"
+        got = run_eml(raw)[0].metadata.date
+        try:
+            ok = _dt.datetime.fromisoformat(got) == parsedate_to_datetime(d) and _dt.datetime.fromisoformat(got).tzinfo is not None
+        except ValueError:
+            ok = False
+        if not ok:
+            return {"target": "eml_email_extractor.py::_read_eml_format", "inputs": {"Date": d}, "expected": parsedate_to_datetime(d).isoformat() + " (same instant)", "observed": got}
+    return None
+
+
 def _std_type(ext):
     import mimetypes
     return mimetypes.guess_type("file." + ext)[0]
@@ -986,7 +1003,7 @@ KNOWN = {"F21-mbox-no-attachments": w_mbox_attachments, "C16-folded-address-head
 RECORDED_SHAPES = ("folded-quoted-names",)       # legacy variants that only restate a recorded finding
 
 FUNCTION_CHECKS = [
-    ("parse_email_message", check_dates),
+    ("parse_email_message", check_dates), ("_read_eml_format", check_eml_dates),
     ("MBOX_FROM_PATTERN", check_pattern), ("get_body_content", check_bodies),
     ("_split_mbox_messages", check_split), ("decode_header_value", check_headers), ("parse_email_address", check_headers),
     ("iterate_supported_attachments", check_dispatch), ("_parse_single_recipient", check_single_recipient), ("read_msg_format_mail", check_msg_mapping), ("read_msg_format_mail", check_msg_fixture),
